@@ -18,6 +18,7 @@ ENV = dict(os.environ)
 ENV.update(GOFLAGS="-mod=mod", GOPROXY="off", GOSUMDB="off", GOTOOLCHAIN="local",
            CARGO_NET_OFFLINE="true", PIP_NO_INDEX="1")
 ENV.setdefault("GOCACHE", os.path.join(WORK, "gocache"))
+ENV.setdefault("GORACE", "halt_on_error=1")   # a race report must kill zvh-race so that exec_ops sees it
 
 TRUSTED_BASE = [
     "Lean 4.33.0 kernel; axioms allowed: propext, Classical.choice, Quot.sound (audited by #print axioms on every run)",
